@@ -313,12 +313,9 @@ macro_rules! dispatch_map {
             "kv200" => $f::<Key, Val<Pad184>>($($arg),*),
             "kva32" => $f::<Key, Val<PadA32>>($($arg),*),
             "kva64" => $f::<Key, Val<PadA64>>($($arg),*),
-            "k8u" => $f::<Key, ()>($($arg),*),
-            "k1" => $f::<K1, ()>($($arg),*),
-            "k2" => $f::<K2, ()>($($arg),*),
-            "k1v1" => $f::<K1, u8>($($arg),*),
             "k4v4" => $f::<K4, u32>($($arg),*),
-            "k8" => $f::<K8, ()>($($arg),*),
+            "k1v4" => $f::<K1, u32>($($arg),*),
+            "k8v4" => $f::<K8, u32>($($arg),*),
             other => panic!("unknown map layout {}", other),
         }
     };
